@@ -385,6 +385,7 @@ def r5_sampling_operators(ctx):
         def siter(interp, env, f, args):
             return Agg("repeat", None, None, [idx])
         return {"rand::distributions::weighted_index::WeightedIndex::new": wnew, "rand::distributions::distribution::Distribution::sample_iter": siter,
+                "rand::distributions::distribution::Distribution::sample": idx, "rand::rng::Rng::sample": idx,
                 "rand::distributions::Distribution::sample_iter": siter}
 
     # ---- sample_population_weighted + the four weighted operators
